@@ -83,8 +83,22 @@ var hk struct {
 	cb     atomic.Pointer[hookFn]
 }
 
-// tick advances the logical clock and returns the new value.
-func tick() int64 { return hk.clock.Add(1) }
+// raceMode: the worker was built with -race for the race tier. The logical
+// clock, history recording and hook callback are off: their atomics and
+// mutexes would add happens-before edges between the very goroutines whose
+// unsynchronised accesses the race detector is meant to see.
+var raceMode bool
+
+var raceT0 = time.Now()
+
+// tick advances the logical clock and returns the new value. In race mode it
+// returns the monotonic clock, which synchronises nothing.
+func tick() int64 {
+	if raceMode {
+		return int64(time.Since(raceT0))
+	}
+	return hk.clock.Add(1)
+}
 
 func hookDispatch(point string, bar *mpb.Bar, a, b int) {
 	pi := pointIndex(point)
@@ -103,6 +117,8 @@ func hookDispatch(point string, bar *mpb.Bar, a, b int) {
 func installHooks(on bool) {
 	if on {
 		mpb.VerifHook = hookDispatch
+	} else {
+		raceMode = true
 	}
 }
 
